@@ -129,3 +129,14 @@ func SimSyncMerge(ancestor *types.Block, blocks []*types.Block) (verified int, t
 	fork.destroy()
 	return
 }
+
+// SimRemoveFromCommonAncestor is the group chain's own fork-switch removal (what groupChainFork.triggerOnChain
+// calls): every group above the group at ancestorHeight is removed, top first.
+func SimRemoveFromCommonAncestor(ancestorHeight uint64) bool {
+	anc := groupChainImpl.GetGroupByHeight(ancestorHeight)
+	if anc == nil {
+		return false
+	}
+	groupChainImpl.removeFromCommonAncestor(anc)
+	return true
+}
